@@ -22,6 +22,8 @@ CLS_YAML = [
         {"decl": "int add(const Cls & other, Cls * third)"},
         # objects returned by value, plain and const qualified (docs/classes.rst, classes.yaml getClassCopy)
         {"decl": "Cls dup() const"}, {"decl": "const Cls cdup() const"},
+        # a const method whose arguments are not const (built, not driven)
+        {"decl": "int blend(Cls * other, std::string & tag) const"},
         # member variables (docs/classes.rst "Member Variables"): getter and setter, read-only, renamed
         {"decl": "int value"}, {"decl": "int ro +readonly"}, {"decl": "double other +name(alt)"}]},
     {"decl": "Cls * make(int v) +owner(caller)"},
@@ -47,6 +49,7 @@ public:
     bool quiet_;
     Cls dup() const;
     const Cls cdup() const;
+    int blend(Cls *other, std::string &tag) const;
 };
 Cls *make(int v);
 const Cls fresh(int v);
@@ -88,6 +91,7 @@ int Cls::add(const Cls &other, Cls *third) {
 Cls::Cls() : value(0), ro(0), other(0.0), quiet_(true) { ncls_++; vt_live(1); }
 Cls Cls::dup() const { Cls rv; rv.value = value + 2000; return rv; }
 const Cls Cls::cdup() const { Cls rv; rv.value = value + 3000; return rv; }
+int Cls::blend(Cls *other, std::string &tag) const { other->value += 1; tag += "!"; return value + other->value; }
 const Cls fresh(int v) { Cls rv; rv.value = v; return rv; }
 Cls *make(int v) {
     vt_begin("LibEnter", "make"); vt_target("ns1::make(int)"); vt_int(v); vt_end();
@@ -270,7 +274,7 @@ def tla_sig(c, tt, nsup, front="c"):
         ref = 0
         if front == "f" and r.get("api"):
             api = r["api"]
-            ref = [q["name"] for q in c["params"]].index(p["a"]) + 1
+            ref = ([q["name"] for q in c["params"]].index(p["a"]) + 1) if "a" in p else 0
         d = {"has": False, "v": {"t": "i", "v": [0]}}
         if "default" in p:
             d = {"has": True, "v": default_value(p, r)}
@@ -311,7 +315,7 @@ def c_expected_types(c, tt, nsup):
         if "ctype" in r:
             out.append(r["ctype"].replace(" ", ""))
             continue
-        ct = {"tdint_v": "int", "tdstr_in": "constchar*", "int_v": "int", "long_v": "long", "double_v": "double", "bool_v": "bool", "enum_v": "int",
+        ct = {"int_phidden": "int*", "tdint_v": "int", "tdstr_in": "constchar*", "int_v": "int", "long_v": "long", "double_v": "double", "bool_v": "bool", "enum_v": "int",
               "int_pin": "constint*", "int_pout": "int*", "int_pinout": "int*", "int_ref": "int*", "dbl_cref": "constdouble*",
               "dbl_pout": "double*", "bool_pinout": "bool*", "cstr_in": "constchar*", "str_cref": "constchar*",
               "str_ref_inout": "char*", "str_ref_out": "char*", "pt_v": "SUB_pt", "pt_pinout": "SUB_pt*",
